@@ -1,5 +1,5 @@
 /-
-  C19 helper lemmas, part 2: 2.14 conversion facts and `inrange_exact` per field.
+  C19 helper lemmas, part 2: 2.14 conversion facts and `inrange_exact_old` per field.
 -/
 import FontcProofs.Casts
 set_option maxRecDepth 2000
@@ -31,22 +31,22 @@ theorem roundHalfAway_gt_of {x : Rat} (h : 32768 < x) : 32768 ≤ roundHalfAway 
   have h0 : 0 ≤ x := by grind
   simp [h0]; rw [truncI_nonneg (by grind)]; rw [Rat.le_floor_iff]; simp; grind
 
-theorem inrange_comp2x2 (v : Rat) (h : Representable .comp2x2 v) (p : Profile) :
-    fieldPipeline .comp2x2 v p = .ok (ideal .comp2x2 v) := by
+theorem inrange_comp2x2_old (v : Rat) (h : Representable .comp2x2 v) (p : Profile) :
+    fieldPipelineOld .comp2x2 v p = .ok (ideal .comp2x2 v) := by
   obtain ⟨h1, h2⟩ := h
   have hv2 : v ≤ 2 := by
     apply Classical.byContradiction; intro hn
     have : 32768 ≤ roundHalfAway (v * 16384) := roundHalfAway_gt_of (by grind)
     omega
   have hlo : -32768 ≤ roundHalfAway (v * 16384) := roundHalfAway_ge_of (by grind)
-  simp only [fieldPipeline, ideal, h1, hv2, and_self, if_true, f2dot14FromF64_eq, f2dot14ToRat]
+  simp only [fieldPipelineOld, ideal, h1, hv2, and_self, if_true, f2dot14FromF64_eq, f2dot14ToRat]
   rw [satI16_of_in ⟨hlo, h2⟩]
 
-theorem inrange_exact (f : Field) (v : Rat) (p : Profile) (h : Representable f v) :
-    fieldPipeline f v p = .ok (ideal f v) := by
+theorem inrange_exact_old (f : Field) (v : Rat) (p : Profile) (h : Representable f v) :
+    fieldPipelineOld f v p = .ok (ideal f v) := by
   cases f
-  case comp2x2 => exact inrange_comp2x2 v h p
-  all_goals (simp only [Representable] at h; simp only [fieldPipeline, ideal, otRoundI16, otRoundU16])
+  case comp2x2 => exact inrange_comp2x2_old v h p
+  all_goals (simp only [Representable] at h; simp only [fieldPipelineOld, ideal, otRoundI16, otRoundU16])
   case outlineCoord | compOffset | lsb | kernValue | anchorCoord | valueDelta | gvarDelta | hvarDelta | metricI16 =>
     rw [satI16_of_in h]
   case advance | metricU16 => rw [satU16_of_in h]
